@@ -45,6 +45,14 @@ func genCtx(r *rand.Rand) ctxT {
 	if r.Intn(4) == 0 {
 		c.Tags = append(c.Tags, pick(r, append(append([]string{}, goOS...), goArch...)))
 	}
+	// … or one of the words with a special reading: ignore (a bare +build line), the alias target of
+	// boringcrypto, boringcrypto itself (which the alias hides), unix, cgo, a release word
+	if r.Intn(6) == 0 {
+		c.Tags = append(c.Tags, pick(r, []string{"ignore", "goexperiment.boringcrypto", "boringcrypto", "unix", "cgo", "go1.0", "go1.30", "gccgo"}))
+	}
+	if r.Intn(12) == 0 {
+		c.Compiler = pick(r, []string{"gccgo", "linux", "amd64", "foo"})
+	}
 	if c.Tags == nil {
 		c.Tags = []string{}
 	}
@@ -286,34 +294,13 @@ func signature(c caseT) string {
 	return hdrClass(c)
 }
 
-// nameClass: since the repair of skipFile (fix commit 176b19a) the file-name rule is proved equal to
-// the toolchain's for every name (Props.C17.name_rule_correct); the only side condition is on the
-// context (the compiler name is not itself an OS/arch word), which the generator always satisfies.
-func nameClass(cs caseT) string {
-	if in(goOS, cs.Ctx.Compiler) || in(goArch, cs.Ctx.Compiler) {
-		return "name-ctx-compiler"
-	}
-	return ""
-}
+// nameClass: since the repairs of skipFile (176b19a) and matchTag (c550b24) the file-name rule is proved
+// equal to the toolchain's for every name and every context (Props.C17.name_rule_correct): no class.
+func nameClass(cs caseT) string { return "" }
 
-// wordClass: the divergence class of one constraint word ("" = in the proved domain DomTag).
-func wordClass(c ctxT, w string) string {
-	if specialWord(c, w) {
-		return "hdr-special-word"
-	}
-	if strings.HasPrefix(w, "go1.") && len(w) > 4 {
-		canon := true
-		for i, ch := range w[4:] {
-			if ch < '0' || ch > '9' || (i == 0 && ch == '0') {
-				canon = false
-			}
-		}
-		if !canon {
-			return "hdr-release-form" // go1.0, go1.01, go1.x
-		}
-	}
-	return ""
-}
+// wordClass: since the repairs c550b24 (implicit words) and 56f4c0c (release words) every word is in the
+// proved domain (Props.C17.tag_correct has no side condition): no class.
+func wordClass(c ctxT, w string) string { return "" }
 
 func validTag(w string) bool {
 	if w == "" {
@@ -376,14 +363,13 @@ func hdrClass(c caseT) string {
 			if !cm.Line || !strings.Contains(cm.Text, "+build") {
 				continue
 			}
-			if !strings.HasPrefix(cm.Text, " +build ") && !strings.HasPrefix(cm.Text, "+build ") {
-				return "hdr-line-shape" // indentation, tab, bare "+build", "+builder"
+			// since fix 5db3bf8 white space is read as the toolchain reads it (F31 fixed): no line-shape class
+			t := strings.TrimSpace(cm.Text)
+			if !strings.HasPrefix(t, "+build") {
+				continue
 			}
-			body := strings.TrimPrefix(strings.TrimPrefix(cm.Text, " "), "+build ")
-			if strings.TrimSpace(body) == "" {
-				return "hdr-line-shape"
-			}
-			for _, opt := range strings.Split(strings.TrimSpace(body), " ") {
+			body := strings.TrimPrefix(t, "+build")
+			for _, opt := range strings.Fields(body) {
 				for _, lit := range strings.Split(opt, ",") {
 					w := strings.TrimPrefix(lit, "!")
 					if !validTag(w) {
